@@ -23,7 +23,7 @@ impl Deserialize for Languages {
                 cbor_event::Len::Len(n) => arr.len() < n as usize,
                 cbor_event::Len::Indefinite => true,
             } {
-                if is_break_tag(raw, "Languages")? {
+                if is_break_tag(raw, len, "Languages")? {
                     break;
                 }
                 arr.push(Language::deserialize(raw)?);
